@@ -23,7 +23,7 @@ Definition ex_strat : strategy := fun p =>
   | _ => Raise [73; 69]
   end.
 Definition ex_rejhdr : read -> str -> hout := fun r reason => HOk (tl (r_header r) ++ tagRR ++ reason).
-Definition ex_cfg (legacy : bool) : config := mkConfig None true false 2 legacy.
+Definition ex_cfg (legacy : bool) : config := mkConfig None true false 2 legacy false.
 Definition ex_pairs := [exA; exB; exC].
 
 Lemma ex_rejhdr_contract : forall r reason h, ex_rejhdr r reason = HOk h -> contains (tagRR ++ reason) h.
@@ -93,6 +93,11 @@ Lemma partial_write_refuted :
 Proof.
   exists [ex_partial], ex_rejhdr, (ex_cfg false), [exA]. vm_compute. repeat split; reflexivity.
 Qed.
+
+(* the loader does not look at the log handle: with and without one the same writes, counters and outcome *)
+Lemma log_independent : forall strats rejhdr cfg b pairs,
+  loader strats rejhdr (set_log b cfg) pairs = loader strats rejhdr cfg pairs.
+Proof. intros. reflexivity. Qed.
 
 (* the reader: R2 is one record short and R1 has a whitespace-only line where the third header should be *)
 Lemma ex_reader :
